@@ -526,6 +526,11 @@ class Gen:
                      and all(f[2] is None for f in s.info["fields"]) and s.prog is self.prog]
             if cands:
                 base = rng.choice(cands)
+        if fields is None and flavour == "plain" and not hashable and rng.random() < 0.3:
+            # an annotated plain class extending an earlier annotated plain class: the fields are the parent's and its own
+            cands = [s for s in self.structs.values() if s.info["flavour"] == "plain" and not s.info.get("base") and s.prog is self.prog]
+            if cands:
+                base = rng.choice(cands)
         if fields is None:
             nf = rng.randrange(1, 5)
             names = rng.sample(FIELD_NAMES, nf)
@@ -642,8 +647,12 @@ class Gen:
             params = ", ".join(f"{f[0]}: {q(f)}" for f in fields)
             assigns = "".join(f"        self.{f[0]} = {f[0]}\n" for f in fields)
             names = ", ".join(repr(f[0]) for f in fields)
+            parent = ""
+            if spec.info.get("base") and fl == "plain":
+                parent = f"({spec.info['base']})"
+                anns = "".join(f"    {f[0]}: {q(f)}\n" for f in fields[spec.info["own_from"]:])  # only its own annotations
             self.prog.emit(
-                f"class {name}:\n{slots}{anns}"
+                f"class {name}{parent}:\n{slots}{anns}"
                 f"    def __init__(self, {params}):\n{assigns}"
                 f"    def __eq__(self, o):\n        return type(o) is type(self) and all(getattr(self, n) == getattr(o, n) for n in ({names},))\n"
                 f"    def __hash__(self):\n        return hash(tuple(repr(getattr(self, n)) for n in ({names},)))\n"
